@@ -60,7 +60,11 @@ pub struct BatchCfg {
 fn spawn_worker(cfg: &BatchCfg, start: u64, stride: u64, slot: u64) -> Child {
     let exe = std::env::current_exe().expect("current_exe");
     let scratch = format!("{}/{}-{}-w{}", scratch_base(), std::process::id(), cfg.tag, slot);
-    Command::new(exe)
+    // address-space limit: an allocation blow-up aborts one worker (and is attributed to its run)
+    // instead of taking the machine down
+    Command::new("prlimit")
+        .arg("--as=8589934592")
+        .arg(exe)
         .arg("worker")
         .arg(&cfg.prop)
         .arg(cfg.batch_seed.to_string())
